@@ -82,7 +82,7 @@ impl Report {
         }
     }
     pub fn viol(&mut self, idx: u64, class: &str, descr: String) {
-        if self.violations.len() < 40 {
+        if self.violations.iter().filter(|v| v.class == class).count() < 12 {
             self.violations.push(Viol { case_id: self.case_id(idx), class: class.to_string(), descr });
         }
     }
